@@ -415,6 +415,14 @@ def _run(report):
     report.extra["library_models_used"] = sorted(set().union(*[e.used_models for e in execs]))
     from ..contracts import audit
     audit.run(report)
+    # executable contract of assert_equal / approx_equal_quantities on the real functions (bounded audit of the model)
+    from ..contracts import refimpl as _ri
+    t_, why_, n_ = _ri.search_approx(reduced=report.tier != "thorough")
+    fails_ = [] if t_ is None else [{"name": "C08/audit/approx/first-disagreement", "detail": why_, "signature": str(t_),
+                                     "replay": {"reproduced": True, "script": f"from vf.contracts.refimpl import replay_approx\nreplay_approx({t_!r})\n"}}]
+    report.add_bounded("executable C08 contract (statement of the property) vs the real assert_equal and approx_equal_quantities on a pool of real/complex quantities, "
+                       "bare numbers, boundary-straddling pairs, tolerances and dimensions", "19 operands squared x tolerances x dimensions" + (" (default tolerances, 2 dimensions)" if report.tier != "thorough" else ""),
+                       n_, t_ is None, fails_)
     report.trust("CPython 3.12 (subset of DESIGN 3.A)", "z3 5.1 / cvc5 1.4", "pytest.approx (assumed contract, audited)",
                  "contracts of assert_equivalent_dimension (C04) and Quantity(number, dimension=) (C05)")
     report.assume(*[f"{k}: {v}" for k, v in FE.ASSUMED.items()])
